@@ -117,10 +117,34 @@ theorem typ_exitrole (h : Typ cfg s) (hen : s.enabled cfg t = true) :
   step_unfold q hen
   all_goals grind [upd, isLoopPc, isExitPc]
 
+theorem typ_tidl (h : Typ cfg s) (hen : s.enabled cfg t = true) :
+    (stepAt cfg s t (s.pc t)).1.evAdded = true → (stepAt cfg s t (s.pc t)).1.tid = cfg.lt := by
+  have h8 := h.tidl
+  have hlt := thr h t
+  clear h
+  unfold St.enabled at hen
+  generalize hq : s.pc t = q at hen hlt ⊢
+  step_unfold q hen
+  all_goals grind [isLoopPc, isExitPc]
+
+theorem typ_noSetW (h : Typ cfg s) (hen : s.enabled cfg t = true) :
+    (stepAt cfg s t (s.pc t)).1.pc cfg.lt ≠ .eSetW := by
+  have h8 := h.tidl
+  have h9 := h.noSetW
+  have h5 := h.started
+  have hlt := thr h t
+  have hacp := advPc_cases (harvest cfg s)
+  have hacp2 := advPc_cases s.plan
+  clear h
+  unfold St.enabled at hen
+  generalize hq : s.pc t = q at hen hlt ⊢
+  step_unfold q hen
+  all_goals grind [upd, isLoopPc, isExitPc]
+
 theorem typ_step {s' : St} {tok : Tok} {ev : List String}
     (h : Typ cfg s) (hs : step cfg s tok = some (s', ev)) : Typ cfg s' := by
   obtain ⟨hen, rfl⟩ := step_some hs
   exact ⟨typ_nonloop h hen, typ_loopthr h hen, typ_beyond h hen, typ_tid h hen, typ_owner h hen,
-         typ_started h hen, typ_idle h hen, typ_exitrole h hen⟩
+         typ_started h hen, typ_idle h hen, typ_exitrole h hen, typ_tidl h hen, typ_noSetW h hen⟩
 
 end MgProof.C14
